@@ -13,7 +13,7 @@ pub fn run(ctx: &mut Ctx) {
     for k in 0..n {
         let idx = k * ctx.nshards + ctx.shard;
         if !ctx.begin_case(idx, "history-with-faulty-replies") { continue; }
-        let cfg = HistCfg { close_tag_draws: false, faults_max: 3, restore: false, payments: if ctx.thorough() { ctx.prng.gen_range(1..=8) } else { ctx.prng.gen_range(1..=3) }, boundary_balances: ctx.prng.gen_range(0..4) == 0, valid_bias: true };
+        let cfg = HistCfg { ping_pong: false, close_tag_draws: false, faults_max: 3, restore: false, payments: if ctx.thorough() { ctx.prng.gen_range(1..=8) } else { ctx.prng.gen_range(1..=3) }, boundary_balances: ctx.prng.gen_range(0..4) == 0, valid_bias: true };
         // the two merchants take turns as the channel's merchant: one thread serves histories (and close checks) under both
         let ok = run_history(ctx, &worlds[k % 2], &worlds[1 - k % 2], &cfg);
         ctx.count(if ok { "history:complete" } else { "history:stopped-early" });
